@@ -1,3 +1,3 @@
 From Coq Require Import Extraction ExtrOcamlBasic.
-From Oxia.Quorum Require Import Model.
-Extraction "quorum_model.ml" new_tracker step commit head.
+From Oxia.Quorum Require Import Model HeadWait.
+Extraction "quorum_model.ml" new_tracker step commit head hstep.
